@@ -66,6 +66,16 @@ def types():
                       [("5", "e5"), ("+5", "i5"), ("x", "ex"), ("-1", "e-1"), ("-01", "i-1"), ("true", "true"), ("42", "i42"), ("042", "i42")])
     t["bits9"] = Ty("bits9", "bits { bit a; bit b { position 7; } bit c { position 8; } bit dd { position 31; } bit e { position 32; } }",
                     [("a", 1), ("e a", 3), ("a e", 3), ("b c", 4), ("c  b", 4), ("dd", 5), ("e dd c b a", 31), ("", 0), ("c", 6)])
+    # key types through the C03 models of this wave: hex-string family (upper-case input, lower-case canonical), date-and-time (canonical
+    # = the UTC instant), binary (canonical = re-encoded base64), pattern string
+    t["hexstr"] = Ty("hexstr", "yang:hex-string", [("ab:cd", "abcd"), ("AB:CD", "abcd"), ("00", "00"), ("0A:0b:0C", "0a0b0c"), ("ff", "ff"), ("0a:0B:0c", "0a0b0c"), ("DE:AD:BE:EF", "deadbeef")])
+    t["mac"] = Ty("mac", "yang:mac-address", [("00:11:22:aa:BB:cc", 1), ("00:11:22:AA:bb:CC", 1), ("ff:ff:ff:ff:ff:ff", 2), ("FF:FF:FF:FF:FF:FE", 3), ("01:23:45:67:89:ab", 4)])
+    t["uuid"] = Ty("uuid", "yang:uuid", [("F81D4FAE-7DEC-11D0-A765-00A0C91E6BF6", 1), ("f81d4fae-7dec-11d0-a765-00a0c91e6bf6", 1), ("00000000-0000-0000-0000-000000000000", 2),
+                                          ("ABCDEFAB-cdef-ABCD-efab-CDEFABCDEFAB", 3)])
+    t["dt"] = Ty("dt", "yang:date-and-time", [("2020-01-01T00:00:00Z", 1), ("2020-01-01T01:00:00+01:00", 1), ("2021-06-15T12:30:45.5Z", 2), ("2021-06-15T12:30:45.50Z", 3),
+                                               ("1999-12-31T23:59:59-00:00", 4), ("2019-12-31T19:00:00-05:00", 1), ("2000-02-29T23:59:59+00:00", 5)])
+    t["bin"] = Ty("bin", "binary { length \"1..6\"; }", [("QQ==", "A"), ("QUI=", "AB"), ("QUJD", "ABC"), ("/+8=", "x"), ("QUJDRA==", "ABCD")])
+    t["pstr"] = Ty("pstr", "string { length \"1..4\"; pattern \"[a-c]+\"; pattern \"a.*\" { modifier invert-match; } }", [("b", "b"), ("bc", "bc"), ("cab", "cab"), ("bbbb", "bbbb"), ("c", "c")])
     t["dec64b"] = Ty("dec64b", "decimal64 { fraction-digits 1; range \"-10.0..10.0\"; }",
                      [("1", 10), ("1.0", 10), ("+1.0", 10), ("-0.5", -5), ("-.5", -5), ("10", 100), ("-10.0", -100), ("0.0", 0), ("00.1", 1)])
     return t
@@ -73,7 +83,7 @@ def types():
 
 TYPES = types()
 KEY_TYPES_TYPED = ["string", "qstring", "int8", "uint32", "int64", "boolean", "enum", "dec64", "union", "bits", "identityref", "instid",
-                   "uint8r", "f412u", "enumint", "bits9", "dec64b", "int8", "identityref"]
+                   "uint8r", "f412u", "enumint", "bits9", "dec64b", "int8", "identityref", "hexstr", "mac", "uuid", "dt", "bin", "pstr"]
 LEAF_TYPES_TYPED = KEY_TYPES_TYPED + ["empty"]
 
 
@@ -266,7 +276,7 @@ def _augments(n, spath, out):
 
 
 def render_modules(top):
-    a = ["module mma {", "  yang-version 1.1;", "  namespace \"urn:mma\";", "  prefix a;",
+    a = ["module mma {", "  yang-version 1.1;", "  namespace \"urn:mma\";", "  prefix a;", "  import ietf-yang-types { prefix yang; }",
          "  identity idb;", "  identity id1 { base idb; }", "  identity id2 { base idb; }",
          # fixed targets for instance-identifier values
          "  container tc { leaf tl { type string; } leaf-list tl2 { type string; } list tq { key k; leaf k { type string; } leaf v { type string; } } }"]
@@ -278,7 +288,7 @@ def render_modules(top):
     for n in top:
         if n.mod == "mma":
             _augments(n, "/a:" + n.name, augs)
-    b = ["module mmb {", "  yang-version 1.1;", "  namespace \"urn:mmb\";", "  prefix b;", "  import mma { prefix a; }",
+    b = ["module mmb {", "  yang-version 1.1;", "  namespace \"urn:mmb\";", "  prefix b;", "  import mma { prefix a; }", "  import ietf-yang-types { prefix yang; }",
          "  identity id3 { base a:idb; }", "  identity id4 { base a:idb; }"]
     for n in top:
         if n.mod == "mmb":
